@@ -632,7 +632,7 @@ func c13History(o *Out, r *rand.Rand) {
 	mkSet := func(n int) map[string]string {
 		m := map[string]string{}
 		for len(m) < n {
-			m[fmt.Sprintf("tcp@10.0.%d.%d:8972", r.Intn(4), r.Intn(40))] = ""
+			m[c13Addr(r)] = ""
 		}
 		return m
 	}
@@ -789,4 +789,12 @@ func c13History(o *Out, r *rand.Rand) {
 	}
 	o.Case("sel hash "+strings.Join(ops, " "), strings.Join(outs, ","), len(cur) >= 2)
 	o.Count(fmt.Sprintf("c13.n=%d", len(cur)))
+}
+
+// c13Addr: a server address; one host:port may be served over several transports (tcp@h:p, quic@h:p,
+// kcp@h:p are three different servers), and ports come in several widths
+func c13Addr(r *rand.Rand) string {
+	net := []string{"tcp", "tcp", "tcp", "quic", "kcp"}[r.Intn(5)]
+	port := []string{"8972", "8972", "8972", "972", "10972"}[r.Intn(5)]
+	return fmt.Sprintf("%s@10.0.%d.%d:%s", net, r.Intn(4), r.Intn(12), port)
 }
